@@ -341,34 +341,23 @@ congruence<Number>::operator/(const congruence<Number> &o) const {
   else {
     /*
        aZ+b / 0Z+b':
-          if b'|a then  (a/b')Z + b/b'
-          else          top
+          if b'|a and b'|b then  (a/b')Z + b/b'
+          else                   top
+
+       The division must be exact for all the elements: otherwise
+       the (truncated) quotients of negative and non-negative
+       elements fall in different classes, e.g., 5/2=2 and -3/2=-1
+       for 4Z+1.
     */
     if (o.m_a == 0) {
-      if (m_a % o.m_b == 0)
+      if (m_a % o.m_b == 0 && m_b % o.m_b == 0)
         return congruence<Number>(m_a / o.m_b, m_b / o.m_b);
       else
         return congruence<Number>::top();
     }
 
     /*
-         0Z+b / a'Z+b':
-            if N>0   (b div N)Z + 0
-            else     0Z + 0
-
-           where N = a'((b-b') div a') + b'
-    */
-    if (m_a == 0) {
-      Number n(o.m_a * (((m_b - o.m_b) / o.m_a) + o.m_b));
-      if (n > 0) {
-        return congruence<Number>(m_b / n, Number(0));
-      } else {
-        return congruence<Number>(Number(0), Number(0));
-      }
-    }
-
-    /*
-      General case: no singleton
+      General case: the divisor is not a singleton
     */
     return congruence<Number>::top();
   }
